@@ -517,6 +517,70 @@ def beyond_program(g):
                                                                            r.choice(NUMS[:8]), r.choice(NUMS[:8])))
 
 
+
+def try_program(g):
+    """loops containing try/catch with break / continue / return in the try block and in the catch clause, inside an outer
+    handler (same function or a caller's), followed by a later throw that the OUTER handler must receive.  Kept away from the
+    open C08 classes: no abrupt exit out of a try that has a finally clause, no return inside a try block, no locals in /
+    abrupt exits from finally blocks."""
+    r = g.r
+    items = [r.choice([1, 2, 3, -1, -2, 5, 0, -7]) for _ in range(r.randint(2, 5))]
+    loop = r.choice(['for', 'forrange', 'while'])
+    in_try = r.choice(['none', 'none', 'break', 'continue'])
+    in_catch = r.choice(['break', 'continue', 'return', 'none', 'break', 'continue'])
+    guard_catch = r.random() < 0.4
+    wrap_if = r.random() < 0.3
+    outer = r.choice(['caller', 'same', 'both', 'nested_loop'])
+    if outer in ('same', 'both') and in_catch == 'return':
+        in_catch = 'break'       # a return lexically inside the OUTER try block is the open class return_in_try_catch_no_finally
+    fin = r.random() < 0.25          # an extra try/finally (no abrupt exit) in the loop body
+    g.shapes.add(('try', loop, in_try, in_catch, outer, wrap_if, guard_catch))
+    a = 'acc.push(it); if it < 0 { throw it; }'
+    if in_try != 'none':
+        a += ' if it == %d { %s; }' % (r.choice(items), in_try)
+    a += ' acc.push("t${it}");'
+    jump = {'break': 'break;', 'continue': 'continue;', 'return': 'return acc;', 'none': ''}[in_catch]
+    b = 'acc.push("c${e}");'
+    if jump:
+        b += (' if e == %d { %s }' % (r.choice([x for x in items if x < 0] or [-1]), jump)) if guard_catch else ' ' + jump
+    body = 'try { %s } catch e { %s }' % (a, b)
+    if wrap_if:
+        body = 'if it != %d { %s } else { acc.push("skip"); }' % (r.choice(items), body)
+    if fin:
+        body += ' try { acc.push("f"); } finally { acc.push("F"); }'
+    body += ' acc.push("end${it}");'
+    lst = '[' + ', '.join(str(x) for x in items) + ']'
+    if loop == 'for':
+        lp = 'for it in items { %s }' % body
+    elif loop == 'forrange':
+        lp = 'for ix in 0..%d { var it = items[ix]; %s }' % (len(items), body)
+    else:
+        lp = 'var ix = 0; while ix < %d { var it = items[ix]; ix += 1; %s }' % (len(items), body)
+    if outer == 'nested_loop':
+        lp = 'for rep in (1, 2) { acc.push("r${rep}"); %s }' % lp
+    if outer in ('same', 'both'):
+        fbody = 'var acc = []; try { %s throw "in"; } catch e2 { acc.push("h${e2}"); } try { throw "in2"; } catch e3 { acc.push(e3); } return acc;' % lp
+    else:
+        fbody = 'var acc = []; %s return acc;' % lp
+    prog = 'fn f(items) { %s } ' % fbody
+    prog += 'try { print(f(%s)); throw "after"; } catch e { print("caught ${e}"); } ' % lst
+    if outer in ('caller', 'both', 'nested_loop'):
+        prog += 'fn g() { try { print(f(%s)); throw "g"; } catch e { print("g caught ${e}"); } return 1; } try { print(g()); throw "top"; } catch e { print("top ${e}"); }' % lst
+    return prog
+
+
+TRY_FIXED = [
+    'fn first_negative(items) { var found = nil; for it in items { try { if it < 0 { throw it; } } catch e { found = e; break; } } return found; } '
+    'try { print(first_negative([1, 2, -3, 4])); throw "after"; } catch e { print("caught ${e}"); }',
+    'fn f(items) { var n = 0; for it in items { try { if it < 0 { throw it; } n += it; } catch e { continue; } n += 100; } return n; } '
+    'try { print(f([1, -2, 3])); throw "after"; } catch e { print("caught ${e}"); }',
+    'fn f() { var i = 0; while i < 3 { i += 1; try { throw i; } catch e { if e == 2 { return "r${e}"; } } } return "none"; } '
+    'try { print(f()); throw "x"; } catch e { print("outer ${e}"); }',
+    'fn f() { var out = []; for a in (1, 2) { for b in (1, 2) { try { if b == 2 { throw b; } out.push((a, b)); } catch e { break; } } try { throw "o${a}"; } catch e { out.push(e); } } return out; } '
+    'try { print(f()); throw "z"; } catch e { print(e); }',
+    'try { var i = 0; while i < 4 { i += 1; try { if i == 2 { continue; } if i == 3 { break; } print(i); } catch e { print("no"); } } throw "late"; } catch e { print("got ${e}"); }',
+]
+
 # ------------------------------------------------------------------------------------------------------------------
 # canonical outcomes
 
@@ -916,7 +980,8 @@ def run(ctx):
     check_decompile(ctx, st, cases, "d")
     # 4. beyond the fragment: the full reference interpreter
     n_bey = max(20, int((150 if quick else 2500) * SCALE))
-    bey = list(BEYOND_FIXED) + [beyond_program(g) for _ in range(n_bey)]
+    n_try = max(30, int((250 if quick else 3000) * SCALE))
+    bey = list(BEYOND_FIXED) + list(TRY_FIXED) + [beyond_program(g) for _ in range(n_bey)] + [try_program(g) for _ in range(n_try)]
     check_beyond(ctx, st, bey, "b")
     ctx.violations[:] = ctx.violations[:5]
     if len(ctx.corr_broken) > 8:
@@ -928,10 +993,12 @@ def run(ctx):
         "rule": "distinct shapes exercised: (operator, operator) pairs at every relative position incl. unary and compound "
                 "(bare, left- and right-parenthesised, operand triples that reveal the grouping), (operator, kind, kind) triples "
                 "over 8 operand kinds, decompiled operator pairs in both nestings, (enclosing statement form, statement form) "
-                "nestings of random programs, beyond-fragment templates",
+                "nestings of random programs, beyond-fragment templates, (loop kind, jump in try block, jump in catch clause, "
+                "outer handler placement, if-wrapped, guarded) shapes of try/catch-in-loop programs",
         "operator_pairs": pairs,
         "kind_triples": len([s for s in st.shapes if s[0] in ("kind", "un")]),
         "statement_nestings": len([s for s in st.shapes if s[0] in ("top", "block", "if", "else", "elseif", "while")]),
+        "try_in_loop_shapes": len([s for s in st.shapes if s[0] == "try"]),
         "samples": [progs[len(PROBES)][0], " ".join(structured[0])[:300], " ".join(structured[n_rand])[:300], bey[-1][:300],
                     show(cases[0][0])[:200]],
         "traces_validated_against_impl": st.n["bytes_equal"],
